@@ -53,14 +53,14 @@ func TrickMode(b byte) *astits.DSMTrickMode {
 }
 
 // OptionalHeader draws a PES optional header. flags is the second flag byte (PTS_DTS 2, ESCR, ES rate, trick, copy info, CRC, extension)
-// when ≥ 0; extFlags the subset of {private data 8, sequence counter 4, P-STD 2, extension2 1} when ≥ 0. writerOnly restricts to what the
+// when ≥ 0; extFlags the subset of {pack header 16 (never for the writer), private data 8, sequence counter 4, P-STD 2, extension2 1} when ≥ 0. writerOnly restricts to what the
 // library's writer supports (no CRC).
 func OptionalHeader(r *rand.Rand, flags, extFlags int, writerOnly bool) *astits.PESOptionalHeader {
 	if flags < 0 {
 		flags = r.IntN(256)
 	}
 	if extFlags < 0 {
-		extFlags = r.IntN(16)
+		extFlags = r.IntN(32)
 	}
 	h := &astits.PESOptionalHeader{
 		MarkerBits:             2,
@@ -106,6 +106,10 @@ func OptionalHeader(r *rand.Rand, flags, extFlags int, writerOnly bool) *astits.
 		h.HasProgramPacketSequenceCounter = extFlags&4 != 0
 		h.HasPSTDBuffer = extFlags&2 != 0
 		h.HasExtension2 = extFlags&1 != 0
+		h.HasPackHeaderField = extFlags&16 != 0 && !writerOnly
+		if h.HasPackHeaderField {
+			h.PackField = uint8(Len(r, 40))
+		}
 		if h.HasPrivateData {
 			h.PrivateData = Bytes(r, 16)
 		}
